@@ -131,6 +131,67 @@ CLAIMED = {
                 "behind an oracle slot that rejects chosen entries. Sequential semantics (C16 covers concurrency).",
         "technique": "Coq proof (refinement to an abstract state machine; ring-with-clears invariant) + correspondence by vm_compute",
     },
+    "C10": {
+        "text": "Theorem C10_manager_refines_reference_map (Props/C10.v): for every pool of valid / invalid / "
+                "duplicate rules and every sequence of load-all, load-for-resource, append, clear and get calls, the "
+                "model of the controller-keeping managers (reuse of equal rules' controllers and reusable "
+                "statistics, rebuild with removal from the old list, as-given map for the unchanged test) answers "
+                "exactly as a controller-free reference map prescribes: return values, reported and enforced rules "
+                "per resource as sets under rule equality. The model is compared with the flow, hotspot, "
+                "circuit-breaker and isolation managers of the crate, and the reference map is evaluated on the "
+                "implementation's own answers.",
+        "design_ref": "DESIGN.md §6 C10, Appendix A.5",
+        "note": "Trusted: Coq kernel + VM (axiom-free); rules abstracted to (id, resource, equality class, validity, "
+                "statistic class); HashSet nondeterminism handled by comparing sets under equality; the system "
+                "manager (global, keyed by metric type) is not exercised; admission decisions are covered by the "
+                "family properties, 'enforced' is observed as the controllers consulted for entries.",
+        "technique": "Coq proof (refinement to a reference map, invariant over operation sequences) + correspondence by vm_compute",
+    },
+    "C17": {
+        "text": "Theorems (Props/C17.v), for ALL four-tuples: a configuration accepted by validation builds a "
+                "statistics node without panicking, with exactly the configured geometry, satisfying the premise "
+                "(geom_ok) of the window and accounting theorems; validation rejects exactly the unservable "
+                "geometries; the store is one cell for the whole process. The correspondence run offers a grid of "
+                "configurations (entity and YAML) to one harness process each and compares acceptance, the values "
+                "read on the initialising and on another thread, and the geometry of nodes created on both threads.",
+        "design_ref": "DESIGN.md §6 C17",
+        "note": "Trusted: Coq kernel + VM; the thread-independence theorem is about the model's single cell and is "
+                "tied to the code by the two-thread observation only; init_core_components' background tasks are "
+                "not started.",
+        "technique": "Coq proof (arithmetic characterisation of the reuse check) + per-process correspondence by vm_compute",
+    },
+    "C20": {
+        "text": "Theorems (Props/C20.v) over the model of the Tower middleware's call path: for every isolation "
+                "threshold, with/without fallback and every sequence of inner outcomes (ready/pending x Ok/Err, some "
+                "futures dropped), admitted iff Sentinel admits, inner service called once iff admitted, rejected "
+                "requests get the fallback or an error, and the in-flight count returns to its previous value after "
+                "every completed call — response or error. Compared with the real SentinelService over a scripted "
+                "inner service polled by hand.",
+        "design_ref": "DESIGN.md §6 C20",
+        "note": "Trusted: Coq kernel + VM (axiom-free); the async state machine generated by rustc and tower's "
+                "plumbing are abstracted to the order of effects; a future dropped before completion keeps its "
+                "admission (tracked and reported, not asserted); the tonic interceptor is not exercised.",
+        "technique": "Coq proof (induction over the request sequence) + correspondence by vm_compute",
+    },
+    "C11": {
+        "text": "Theorems (Props/C11.v): along every sequence of manager operations and identity observations, "
+                "whenever a resource is observed again while its prescribed rules (pairwise different under rule "
+                "equality) never changed in between — whatever happened to other resources, rule order or ids — its "
+                "controllers/breakers and their statistic objects are the very same objects; a rebuild with rules "
+                "equal up to order and ids returns a permutation of the same controllers; after any operation the "
+                "enforced rules are the prescribed ones (C10), so a changed rule applies at once. Two correspondence "
+                "families: (1) object identities (Arc addresses) observed after every operation on the flow, hotspot "
+                "and breaker managers, with the C11 predicate evaluated on them; (2) the traffic histories of C01, "
+                "C03, C05, C06, C07 run on the implementation WITH equal-rule reloads (fresh ids, reversed order, "
+                "load-for-resource / load-all / load-all with an unrelated resource added or removed) inserted at "
+                "random points — mid-window, while Open/Half-Open, with queued throttling slots — and compared with "
+                "the model and Spec of the same history WITHOUT reloads.",
+        "design_ref": "DESIGN.md §6 C11",
+        "note": "Trusted: Coq kernel + VM (axiom-free for the identity theorems); 'state lives in the object' links "
+                "identity to behaviour and is checked by the reload-insertion runs only; warm-up rules are not in the "
+                "reload runs; one rule per resource in the reload runs (controller order after a reload is free).",
+        "technique": "Coq proof (permutation lemma for the rebuild, invariant over operation sequences) + reload-insertion differential correspondence by vm_compute",
+    },
 }
 
 REASON_TODO = "not yet covered by the Coq development in this revision (planned, see DESIGN.md §6); no check is claimed"
@@ -186,7 +247,7 @@ def main():
 
 
 NA = {}
-HOOK_COMMITS = ["28ce0b4", "ef616a0", "1b90b9f"]
+HOOK_COMMITS = ["28ce0b4", "ef616a0", "1b90b9f", "34a6ecc"]
 
 if __name__ == "__main__":
     main()
